@@ -324,6 +324,7 @@ def canonicalise(tree: ast.AST) -> ast.AST:
                 return ast.copy_location(ast.Assign(targets=[node.target], value=node.value), node)
             return node
     T().visit(tree)
+    _fold_append_loops(tree)
     _inline_adjacent_temporaries(tree)
     ast.fix_missing_locations(tree)
     return tree
@@ -331,6 +332,43 @@ def canonicalise(tree: ast.AST) -> ast.AST:
 
 _PURE_NODES = (ast.Name, ast.Attribute, ast.Subscript, ast.Constant, ast.BinOp, ast.Compare, ast.Tuple, ast.UnaryOp, ast.Slice, ast.expr_context, ast.operator, ast.cmpop,
                ast.unaryop)
+
+
+def _fold_append_loops(tree: ast.AST) -> None:
+    '''`L = []` immediately followed by `for T in IT: L.append(E)` (optionally under one `if C:` without else; no other statement in the loop, L not read by E, C or
+    IT) is the list comprehension `L = [E for T in IT if C]`: the two spellings of one thing are analysed as one.'''
+    for fn in ast.walk(tree):
+        if not isinstance(fn, (ast.FunctionDef, ast.AsyncFunctionDef)):
+            continue
+        for holder in ast.walk(fn):
+            for field in ('body', 'orelse', 'finalbody'):
+                st = getattr(holder, field, None)
+                if not isinstance(st, list):
+                    continue
+                i = 0
+                while i < len(st) - 1:
+                    a, lp = st[i], st[i + 1]
+                    ok = isinstance(a, ast.Assign) and len(a.targets) == 1 and isinstance(a.targets[0], ast.Name) and \
+                        ((isinstance(a.value, ast.List) and not a.value.elts) or (isinstance(a.value, ast.Call) and isinstance(a.value.func, ast.Name) and a.value.func.id == 'list'
+                                                                              and not a.value.args and not a.value.keywords)) \
+                        and isinstance(lp, ast.For) and not lp.orelse and len(lp.body) == 1
+                    if ok:
+                        nm = a.targets[0].id
+                        b = lp.body[0]
+                        cond = None
+                        if isinstance(b, ast.If) and not b.orelse and len(b.body) == 1:
+                            cond, b = b.test, b.body[0]
+                        ok = isinstance(b, ast.Expr) and isinstance(b.value, ast.Call) and isinstance(b.value.func, ast.Attribute) and b.value.func.attr == 'append' \
+                            and isinstance(b.value.func.value, ast.Name) and b.value.func.value.id == nm and len(b.value.args) == 1 and not b.value.keywords
+                        if ok:
+                            elt = b.value.args[0]
+                            others = [x for part in (elt, lp.iter, cond) if part is not None for x in ast.walk(part)]
+                            if not any(isinstance(x, ast.Name) and x.id == nm for x in others) and not any(isinstance(x, (ast.Yield, ast.YieldFrom, ast.Await)) for x in others):
+                                comp = ast.ListComp(elt=elt, generators=[ast.comprehension(target=lp.target, iter=lp.iter, ifs=[cond] if cond is not None else [], is_async=0)])
+                                new = ast.Assign(targets=[a.targets[0]], value=ast.copy_location(comp, lp))
+                                st[i:i + 2] = [ast.copy_location(new, a)]
+                                continue
+                    i += 1
 
 
 def _inline_adjacent_temporaries(tree: ast.AST) -> None:
